@@ -396,7 +396,7 @@ def select__descendant_path(self: XPathToken, context: ta.ContextType = None) \
         for _ in context.iter_descendants():
             for result in self[0].select(context):
                 if not isinstance(result, XPathNode):
-                    items.add(result)
+                    yield result
                 elif result in items:
                     pass
                 elif isinstance(result, ElementNode):
